@@ -36,6 +36,7 @@ structure G where
   version : Nat := 0
   builtins : Bool := false      -- `__builtins__` already inserted into the registry
   lock : Option Nat := none
+  allResolved : Bool := false   -- some thread has run the resolve loop over every registry entry to its end
   th : Nat → T := fun _ => {}
 
 def G.set (g : G) (t : Nat) (s : T) : G := { g with th := fun u => if u = t then s else g.th u }
@@ -61,7 +62,7 @@ def step (sh : Shape) (K : Nat) (g : G) (t : Nat) : G :=
     else if s.rem = 0 then g.set t { s with pc := .resolve, rem := K }
     else g.set t { s with rem := s.rem - 1 }
   | .resolve =>
-    if s.rem = 0 then g.set t { s with pc := .setFlag }
+    if s.rem = 0 then { (g.set t { s with pc := .setFlag }) with allResolved := true }
     else { (g.set t { s with rem := s.rem - 1 }) with
              builtins := true, version := if g.builtins then g.version else g.version + 1 }
   | .setFlag => { (g.set t { s with pc := .unlock }) with flag := true }
